@@ -20,6 +20,11 @@ func rulesC02(c *Ctx) {
 	// success stops the loop: PostExecute's success branch yields Done=true
 	c01PostExecute(c)
 	c01Verdict(c)
+	// "only after an outcome it classifies as a failure", "abort-matching outcome": the shared classification
+	c12IsFailure(c)
+	c12Registrars(c)
+	c12AnyOf(c)
+	c12Shared(c)
 }
 
 // c02Count: the retry executor's mutable fields are written only by the executor's own slot methods (and
